@@ -281,6 +281,13 @@ pub fn run(thorough: bool, seed: u64, driver: &str, rep: &mut Report) {
                     t.for_each_mut(&mut |x, _, _| if x.kids.is_empty() { if let Some(n) = x.name.as_mut() { match rng.below(4) { 0 => *n = format!("\"{n}\""), 1 => *n = format!("\"{n} x\""), _ => {} } } }, true, 0);
                     rep.count("trees_with_quoted_leaf_labels");
                 }
+                // a leaf name of exactly ten characters that is a prefix of another leaf name
+                if i % 9 == 5 {
+                    let mut k = 0;
+                    let base = format!("Taxon_{:04}", rng.below(10000));
+                    t.for_each_mut(&mut |x, _, _| if x.kids.is_empty() && x.name.is_some() && k < 2 { x.name = Some(if k == 0 { base.clone() } else { format!("{base}_melanogaster") }); k += 1; }, true, 0);
+                    rep.count("trees_with_a_ten_character_prefix_pair");
+                }
                 // stream B (decimal lengths) has no exact model tie: the harness compares within 1e-9
                 one_tree(&t, &mut rng, rep, &mut batch, job.exact && size <= 120);
                 rep.count(if job.exact { "random:stream-A-exact" } else { "random:stream-B-1e-9" });
